@@ -21,7 +21,7 @@ func (c *ProgCase) Reqs() []Req  { return []Req{{Src: []byte(c.P.Source())}} }
 
 func upperLen(s PStmt) int {
 	switch s.K {
-	case "inst", "movl":
+	case "inst", "movl", "lgdt":
 		return 13
 	case "jmp":
 		return 6
@@ -274,7 +274,7 @@ func init() { registerKind("prog", func() Case { return &ProgCase{} }) }
 
 // ---- generators ------------------------------------------------------------------
 
-var c03Origins = []int64{-1, 0, 0x7c00, 0xc200}
+var c03Origins = []int64{-1, 0, 0x7c00, 0xc200, 0x280000}
 
 func probeReg(mode int, k int) *XOp {
 	var r XOp
@@ -308,6 +308,7 @@ func c03Systematic(r *Rand, mode int, org int64, k PStmt, idx int) *ProgCase {
 		PStmt{K: "data", W: lw, Items: []DItem{{Kind: "label", Label: "after", Text: "after"}, {Kind: "label", Label: "first", Text: "first"}, {Kind: "dollar", Text: "$"}}},
 		PStmt{K: "movl", Reg: probeReg(mode, idx+1), Label: "after"},
 		PStmt{K: "movl", Reg: probeReg(mode, idx+2), Label: "$"},
+		PStmt{K: "lgdt", Label: "after"},
 		PStmt{K: "jmp", Mn: Pick(r, []string{"JMP", "JE", "JNZ", "CALL", "JC"}), Label: "after"},
 		PStmt{K: "data", W: 4, Items: []DItem{{Kind: "label", Label: "first", Text: "first"}}},
 		PStmt{K: "label", Label: "zend"},
@@ -367,7 +368,11 @@ func c03Random(r *Rand, mode int, org int64, withJumps bool) *ProgCase {
 			defined := defIdx[l] <= i
 			switch r.Intn(5) {
 			case 0, 1:
-				out = append(out, PStmt{K: "movl", Reg: probeReg(mode, r.Intn(8)), Label: l})
+				if r.Chance(1, 5) {
+					out = append(out, PStmt{K: "lgdt", Label: l})
+				} else {
+					out = append(out, PStmt{K: "movl", Reg: probeReg(mode, r.Intn(8)), Label: l})
+				}
 			case 2:
 				if defined {
 					out = append(out, PStmt{K: "data", W: Pick(r, []int{2, 4}), Items: []DItem{{Kind: "label", Label: l, Text: l}}})
